@@ -256,7 +256,7 @@ struct C21 : Driver {
 static Registrar r21(new C21);
 
 // ===================================================================== operand scenarios (C16, C17, C18)
-struct Operand { std::string in, out; Bytes indata, expect; };
+struct Operand { std::string in, out; Bytes indata, expect; bool never = false; };
 
 static std::string out_name(const std::string &in, bool decompress) {
   if (!decompress) return in + ".bz2";
@@ -272,7 +272,7 @@ static std::string out_name(const std::string &in, bool decompress) {
 struct C16 : Driver {
   const char *prop() const override { return "C16"; }
   const char *level() const override { return "fault_enumeration"; }
-  uint64_t ncases(int tier) const override { return tier ? 700 : 64; }
+  uint64_t ncases(int tier) const override { return tier ? 700 : 128; }
   bool exhaustive() const override { return true; }
   std::string exhaustive_note() const override { return "for each listed (scenario, schedule seed): SIGINT, SIGTERM and SIGKILL injected at EVERY decision step of the fault-free run, and every n-th read/write/close/fchown/fchmod/futimens/unlink call failed once with each applicable errno; scenarios and schedule seeds are sampled (thorough adds random double faults)"; }
   std::string rule() const override {
@@ -306,7 +306,18 @@ struct C16 : Driver {
     }
     r.sched = random_sched(rng, false);
     if (dec && rng.below(2)) { r.in_granul = 256u << rng.below(4); r.out_granul = 2000 + rng.below(30000); }
-    c.data_desc = std::string(dec ? "decompress " : "compress ") + std::to_string(nop) + " operands" + (keep ? " -k" : "");
+    // "the run fails (... corrupt data)": one operand damaged (flipped bit or truncation); the fault-free baseline then already ends with status 1
+    // there, and the injected signals/errors land before, inside and after lbzip2's own error handling
+    int corrupt_at = -1;
+    if (dec && rng.below(4) == 0) {
+      corrupt_at = (int)rng.below(nop);
+      Bytes &d = c.files[corrupt_at].data;
+      Bytes orig = d;
+      if (d.size() > 14) { size_t pos = 10 + rng.below(d.size() - 10); d[pos] ^= (char)(1u << rng.below(8)); if (rng.below(3) == 0) d.resize(pos + 1); }
+      if (bz::refdec(d).verdict != bz::V_INVALID) { d = orig; corrupt_at = -1; }      // harmless damage (unused bits) or a documented-exception/uncertain verdict: keep the operand intact instead
+    }
+    c.p["corrupt_at"] = corrupt_at;
+    c.data_desc = std::string(dec ? "decompress " : "compress ") + std::to_string(nop) + " operands" + (keep ? " -k" : "") + (corrupt_at >= 0 ? " corrupt#" + std::to_string(corrupt_at) : "");
     c.runs.push_back(r);
     return c;
   }
@@ -324,10 +335,21 @@ struct C16 : Driver {
     base.faults.clear(); base.sigs.clear();
     sim::Result b = exec(base, Bytes(), c.files, ctx);
     if (Verdict v = global_monitors(b, "fault-free run"); !v.ok()) return v;
-    if (!b.exited(0)) return Verdict::fail("baseline-status", "the fault-free run ended with " + b.describe());
+    int corrupt_at = c.p.count("corrupt_at") ? (int)c.p.at("corrupt_at") : -1;
+    if (corrupt_at < 0 ? !b.exited(0) : !b.exited(1)) return Verdict::fail("baseline-status", "the fault-free run ended with " + b.describe());
     std::vector<Operand> ops;
+    int opi = -1;
     for (auto &f : c.files) {
+      opi++;
       Operand o; o.in = f.name; o.out = out_name(f.name, dec); o.indata = f.data;
+      if (corrupt_at >= 0 && opi >= corrupt_at) {     // the damaged operand and everything after it: never finished, whatever else happens
+        o.never = true;
+        if (b.world.lookup(o.out)) return Verdict::fail("partial-output-left", "run on a damaged operand (no injected fault) left " + o.out + " behind: " + b.describe());
+        const sim::Inode *in0 = b.world.lookup(o.in);
+        if (!in0 || in0->data != o.indata) return Verdict::fail("data-lost", "run on a damaged operand (no injected fault) removed or changed " + o.in);
+        ops.push_back(o);
+        continue;
+      }
       const sim::Inode *out = b.world.lookup(o.out);
       if (!out) return Verdict::fail("baseline-no-output", "fault-free run left no output file " + o.out);
       o.expect = out->data;
@@ -379,7 +401,7 @@ struct C16 : Driver {
         for (auto &o : ops) {
           const sim::Inode *in = a.world.lookup(o.in), *out = a.world.lookup(o.out);
           bool in_ok = in && in->data == o.indata;
-          bool out_complete = out && out->data == o.expect;
+          bool out_complete = out && !o.never && out->data == o.expect;
           bool out_closed = out && out->closed_ok;
           if (kill9) {
             if (!in_ok && !out_complete) { v = Verdict::fail("data-lost", "after SIGKILL operand " + o.in + ": input " + (in ? "changed" : "gone") + " and output " + (out ? "incomplete" : "missing")); break; }
